@@ -12,6 +12,8 @@ from . import C06
 from .common import run_configs
 
 LEVEL = "other"
+# field -> label of the first challenge that weights the relation the field enters (reference protocol order)
+BINDING = {"A_I1": "y", "A_O1": "y", "S1": "y", "A_I2": "y", "A_O2": "y", "S2": "y", "T_1": "x", "T_3": "x", "T_4": "x", "T_5": "x", "T_6": "x", "t_x": "w", "t_x_blinding": "w", "e_blinding": "w"}
 _TIER = "quick"
 
 
@@ -80,6 +82,32 @@ def body(ck, F, cfg):
             continue
         okk = any(s in on_all for s in hit) and any(any(s in pre for s in hit) for ch, pre in before_ch.items())
         ck.require(okk, "R04.2", f"absorbed:{n}", f"proof field {n} must be absorbed on every accepting verifier path before a later challenge")
+        # the challenge that weights the field's own relation must come after the field
+        lbl = BINDING[n] if n in BINDING else None
+        if lbl is None:
+            ck.fail("R04.2", f"bound-by:{n}", f"proof field {n} has no entry in the binding-challenge table (new field?)", kind="anchor-missing")
+            continue
+        pres = [pre for ch, pre in before_ch.items() if ch[1] == lbl]
+        ck.require(bool(pres) and all(any(s in pre for s in hit) for pre in pres), "R04.2", f"bound-by:{n}", f"proof field {n} must be absorbed before challenge `{lbl}` is squeezed on every path (otherwise {n} can be changed after the challenge that weights it is known)")
+    # the verifier-only weight r joins the two relations: every field must be absorbed before the fork r is squeezed from
+    flat = AN.flat_trace(I.trace.items)
+    forked, late, r_ops = False, [], 0
+    for it, ctx in flat:
+        if it[0] == "fork":
+            forked = True
+        elif it[0] == "op":
+            d = it[1]
+            if d["tr"].is_clone():
+                r_ops += d["kind"] == "challenge_bytes"
+            elif forked and d["kind"] != "challenge_bytes" and "pf." in repr(d.get("payload")):
+                late.append((d["kind"], d["label"]))
+    if forked:
+        ck.require(not late, "R04.2", "bound-by-r", f"proof elements absorbed only after the transcript fork the batching weight r is squeezed from are not bound by r: {late}", "src/r1cs/verifier.rs (verification_scalars)")
+    else:
+        pres = [pre for ch, pre in before_ch.items() if ch[1] == "r"]
+        allf = [n for n, _ in fields if n not in ("a", "b")]
+        okr = bool(pres) and all(any(s[2].endswith(":pf." + n) for s in pre) for pre in pres for n in allf)
+        ck.require(okr, "R04.2", "bound-by-r", "the batching weight r must be squeezed after every proof element is absorbed", "src/r1cs/verifier.rs (verification_scalars)")
     # R04.4 batch verification is verification too: an altered proof must not be accepted there either (C07's rules by reference)
     from . import C07
 
